@@ -828,5 +828,6 @@ func TestProp(t *testing.T) {
 		hx.NewSub("spellings", 2500, 40000, genCase, checkCase),
 		hx.NewSub("equal_level", 2000, 15000, genEq, checkEq),
 		hx.NewSub("malformed", 4000, 60000, genBad, checkBad),
+		hx.NewSub("interpolation", 1500, 15000, genInterp, checkInterp),
 	)
 }
